@@ -1,9 +1,9 @@
 CONSTANTS
   Streams = {0}
   Paired = FALSE
-  MaxOps = 6
+  MaxOps = 5
   MaxWire = 3
-  BarrierBug = FALSE
+  BarrierBug = TRUE
   ResetLoose = FALSE
   LoseFlagInClosing = FALSE
   LocalOps = {"read", "read1", "write", "bigwrite", "flush", "close", "close_read", "drop"}
